@@ -128,15 +128,16 @@ CHECKS = {
         "(1e-12 linearity, 1e-5/degree shipped, 1e-12 synthetic). Axioms: none.",
    tech="Rocq proof: affine form of plan application + corollaries of the certificate theorem; vm_compute correspondence", ref="DESIGN.md §4 C05"),
  "C07": dict(
-   text="Theorems C07_find_path_errors, C07_inline_paths_errors, C07_direct_only_cnf_partial (the path finder, the inliner and every direct conversion "
-        "fail only with ConversionNotFound, or by exhausting the recursion budget), C07_eq_without_conversion / C07_order_without_conversion (== False, "
-        "ordering TypeError when no conversion exists). Per run: regenerated obligation that conversions.py contains no assert; kernel-checked "
-        "model=implementation including the exception class; python vs python -O differential on every case; disconnected, partially connected and "
-        "long-chain systems.",
-   note=TB + "Partial: unreachability of KeyError/IndexError/ValueError/ZeroDivisionError inside the planner's bookkeeping (_clean_pop/_clean_remove) "
-        "is not yet a theorem; those raise sites are explicit in the model and the correspondence compares exception classes on every case. RecursionError "
-        "(interpreter stack) is outside the fuelled model. Axioms: none.",
-   tech="Rocq proof: error-class analysis of the path finder by induction + dispatch model; vm_compute correspondence; -O differential", ref="DESIGN.md §4 C07"),
+   text="Theorem C07_only_cnf: for every table with non-zero ratios, every magnitude and every pair of units, the conversion model either succeeds or fails with "
+        "ConversionNotFound -- never KeyError (_clean_pop, _clean_remove, _ratios[unit][alternative]), IndexError, ValueError (list.remove) or ZeroDivisionError "
+        "(1/ratio, scale**negative); proved through invariants of the planner's dictionaries (unique keys, no empty lists, multiset counts of the pending replacements): "
+        "C07_match_factors_never_raises, C07_rough_plan_errors, C07_find_path_errors. C07_eq_without_conversion / C07_order_without_conversion: == False, ordering "
+        "TypeError when no conversion exists. Per run: the theorem's hypotheses are discharged by vm_compute on every exported table; regenerated obligation that "
+        "conversions.py contains no assert; kernel-checked model = implementation including the exception class; python vs python -O differential on every case; "
+        "disconnected, partially connected, zero-magnitude and long-chain systems.",
+   note=TB + "The model's two non-Python error values remain possible outcomes of the theorem: EFuel (stands for RecursionError / non-termination; the budget is never "
+        "exhausted in the runs) and EMissing (incomplete harness export). RecursionError itself (interpreter stack) is outside the fuelled model. Axioms: none.",
+   tech="Rocq proof: invariants of the planner's dictionaries by induction over its loops + error-class analysis of the path finder; vm_compute correspondence; -O differential", ref="DESIGN.md §4 C07"),
  "C06": dict(
    text="Theorems C06_mul/div/pow (unconditional) and C06_addsub/eq/lt/conversion_preserves_value (for every conversion oracle sound "
         "for the sizes): the value magnitude*prefix*size of every result is the operation on the operands' values, for all sizes, "
